@@ -158,6 +158,8 @@ def render(prog, clsname):
         lines.append("        self.{0} = self.addIn('{1}', {0})".format(n, prog.get('portname', {}).get(n, n)))
     for n, w in prog['outs']:
         lines.append("        self.{0} = self.addOut('{1}', {0})".format(n, prog.get('portname', {}).get(n, n)))
+    for n, v in prog.get('init_first', []):
+        lines.append('        self.{} = {}'.format(n, v))        # a default that the constructor overwrites further down
     for n, v in prog['state']:
         lines.append('        self.{} = {}'.format(n, prog.get('init_expr', {}).get(n, v)))
     for n, v in prog['consts']:
@@ -524,6 +526,9 @@ def programs(draw, kind=None, allow_known=False):
     for o, w in outs:
         body.append(['out', o, expr(set(locs), 2)])
     prog = {'kind': kind, 'ins': ins, 'outs': outs, 'state': state, 'consts': consts, 'body': body}
+    if state and draw(st.integers(0, 3)) == 0:
+        n0, v0 = draw(st.sampled_from(state))
+        prog['init_first'] = [[n0, draw(st.integers(0, 9).filter(lambda x: x != v0))]]
     if allow_known and draw(st.integers(0, 9)) == 0:
         prog['portname'] = {ins[0][0]: ins[0][0] + '_p'}
     return prog
@@ -624,7 +629,12 @@ def unsupported_cases(draw, n_cycles):
         prog['body'].append(['assign', ['loc', 'f'], ['float', 1.5]])
         prog['body'].append(['out', o, ['c', 1]])
     elif which == 'bool_as_value':
-        prog['body'].append(['out', o, ['bin', '+', ['cmp', '>', ['in', a], ['c', 2]], ['c', 1]]])
+        # comparison results used as numbers: (a > 2) + 1, (a != 0) + (b != 0), (a != 0) & (b != 0) ...
+        def cmpv():
+            src = draw(st.sampled_from(prog['ins']))[0]
+            return ['cmp', draw(st.sampled_from(['>', '!=', '!=', '==', '<='])), ['in', src], ['c', draw(st.sampled_from([0, 0, 1, 2]))]]
+        rhs = draw(st.sampled_from([['c', 1], None, None]))
+        prog['body'].append(['out', o, ['bin', draw(st.sampled_from(['+', '+', '&', '|', '^'])), cmpv(), rhs or cmpv()]])
     elif which == 'nonconst_init':
         prog['state'].append(['sz', 0])
         prog['init_expr'] = {'sz': '1 + 2'}
